@@ -82,6 +82,7 @@ func (d *dumper) tid(t types.Type) int {
 	if t == nil {
 		return -1
 	}
+	t = types.Unalias(t)
 	key := types.TypeString(t, nil)
 	if id, ok := d.tids[key]; ok {
 		return id
@@ -96,10 +97,6 @@ func (d *dumper) tid(t types.Type) int {
 		jt["name"] = key
 		jt["under"] = d.tid(u.Underlying())
 		d.typq = append(d.typq, t)
-	case *types.Alias:
-		jt["kind"] = "named"
-		jt["name"] = key
-		jt["under"] = d.tid(types.Unalias(u).Underlying())
 	case *types.Basic:
 		jt["kind"] = "basic"
 		info := u.Info()
